@@ -82,7 +82,7 @@ func childReal() {
 		tee.mu.Lock()
 		id := tee.idOf[n]
 		tee.mu.Unlock()
-		return mcp.NewTextResult(fmt.Sprintf("echo:%s|id=%s|n=%d", n, id, k)), nil
+		return mcp.NewTextResult(fmt.Sprintf("%s|id=%s|n=%d", expectText(n), id, k)), nil
 	})
 	pr, pw := io.Pipe()
 	go func() {
@@ -113,6 +113,7 @@ type script struct {
 	Frames  []scriptFrame `json:"frames"`
 	Frames2 []scriptFrame `json:"frames2"` // written once GoFile exists
 	GoFile  string        `json:"gofile"`
+	Die     bool          `json:"die"` // after K requests the peer exits without answering
 }
 
 func frameJSON(f scriptFrame) string {
@@ -142,6 +143,10 @@ func childScript() {
 				case m.Method == "tools/call":
 					fmt.Fprintf(mapF, "%s %s\n", m.Params.Arguments.Nonce, string(m.ID))
 					got++
+					if got == sc.K && sc.Die {
+						mapF.Sync()
+						os.Exit(0)
+					}
 					if got == sc.K {
 						mapF.Sync()
 						for _, f := range sc.Frames {
